@@ -281,10 +281,10 @@ func isNilAddr(a net.Addr) bool {
 // hsClientConfig builds the client for a handshake configuration.
 func hsClientConfig(r *h.Run, c hsConf, path, launch string, timeout time.Duration) *plugin.ClientConfig {
 	cfg := &plugin.ClientConfig{
-		HandshakeConfig: plugins.Handshake,
-		Logger:          r.Logger("host"),
-		StartTimeout:    timeout,
-		AutoMTLS:        c.TLS == "auto",
+		HandshakeConfig:     plugins.Handshake,
+		Logger:              r.Logger("host"),
+		StartTimeout:        timeout,
+		AutoMTLS:            c.TLS == "auto",
 		GRPCBrokerMultiplex: c.Mux,
 	}
 	cfg.HandshakeConfig.ProtocolVersion = 0
@@ -577,7 +577,7 @@ func hsRandom(prop string, seed uint64, n int, launches []string) []*k.Spec {
 func init() {
 	Register(&Prop{ID: "C01",
 		Meta: Meta{Level: "exploration",
-			Rule: "scripted (non-go-plugin) plugin process whose first stdout line is generated from a 7-field grammar (per field: valid/empty/garbage/non-numeric/negative/huge/blank-padded/...; missing and extra fields; LF/CRLF/no terminator; blank lines first; 70KB line; real DER certificates generated inside the run) delivered in drawn chunks with drawn delays that straddle StartTimeout, then staying alive, exiting or closing stdout; x 96 client configurations (allowed lists x legacy/versioned sets x TLS none/static/AutoMTLS x mux); oracle = reference reading of the line written from the property statement: Start returns within StartTimeout+bound, never (nil,nil), succeeds only for lines the reference accepts, reports exactly the line's protocol/version/address, on error the process is terminated; host panic = violation. Quick: all single-field deviations x 8 configurations x 2 launch methods (complete) + 1500 random; thorough: x all 96 configurations + random",
+			Rule:       "scripted (non-go-plugin) plugin process whose first stdout line is generated from a 7-field grammar (per field: valid/empty/garbage/non-numeric/negative/huge/blank-padded/...; missing and extra fields; LF/CRLF/no terminator; blank lines first; 70KB line; real DER certificates generated inside the run) delivered in drawn chunks with drawn delays that straddle StartTimeout, then staying alive, exiting or closing stdout; x 96 client configurations (allowed lists x legacy/versioned sets x TLS none/static/AutoMTLS x mux); oracle = reference reading of the line written from the property statement: Start returns within StartTimeout+bound, never (nil,nil), succeeds only for lines the reference accepts, reports exactly the line's protocol/version/address, on error the process is terminated; host panic = violation. Quick: all single-field deviations x 8 configurations x 2 launch methods (complete) + 1500 random; thorough: x all 96 configurations + random",
 			Exhaustive: "all single-field deviations from the valid line (7 fields x 8-13 classes), 16 line shapes, 11 timing/exit behaviours, silent and partial-line plugins, for each listed client configuration and launch method"},
 		Plan: func(tier string, seed uint64, stage int, prev []*h.Result) []*k.Spec {
 			if stage > 0 {
@@ -598,7 +598,7 @@ func init() {
 	})
 	Register(&Prop{ID: "C05",
 		Meta: Meta{Level: "fault_enumeration",
-			Rule: "every way Start can fail after launch, enumerated: each handshake field invalid in turn (7 fields x classes), malformed shapes, silence until timeout, partial line without newline, exit before any output (codes 0/2), stdout closed while alive, both pipes closed, disallowed protocol, bad certificate, unsupported multiplexing, line arriving after the timeout - x launch method (command, custom runner) x 8 client configurations; plus seeded timing/chunking/schedule noise; oracle: when Start returns an error the launched process is dead within 1s simulated, a later Kill returns within 5s and, with a custom runner, the plugin-dir* directory is gone",
+			Rule:       "every way Start can fail after launch, enumerated: each handshake field invalid in turn (7 fields x classes), malformed shapes, silence until timeout, partial line without newline, exit before any output (codes 0/2), stdout closed while alive, both pipes closed, disallowed protocol, bad certificate, unsupported multiplexing, line arriving after the timeout - x launch method (command, custom runner) x 8 client configurations; plus seeded timing/chunking/schedule noise; oracle: when Start returns an error the launched process is dead within 1s simulated, a later Kill returns within 5s and, with a custom runner, the plugin-dir* directory is gone",
 			Exhaustive: "the failure-cause x launch-method x configuration matrix described in rule"},
 		Plan: func(tier string, seed uint64, stage int, prev []*h.Result) []*k.Spec {
 			if stage > 0 {
